@@ -190,15 +190,22 @@ BackupFull == /\ NB < MaxBackups
               /\ bks' = Append(bks, Rec("full", 0, IF snap > 0 THEN {snap} ELSE {}, lo))
               /\ Note(Mark("bfull")) /\ UNCHANGED <<kv, log, snap, lo, clock>>
 
-\* parent = the latest backup; ships what the parent cannot have: the log behind the parent's capture point
+\* ships what the parent cannot have: the log behind the parent's capture point
 \* (as far as it is still retained) and - intended protocol - the committed snapshot if no archive of the
 \* chain holds it yet.  With nothing new in the log the real call may refuse ("no new WAL files").
-BackupIncr == /\ NB < MaxBackups /\ NB > 0 /\ bks[NB].live
-              /\ Gen \/ Len(log) > bks[NB].n
-              /\ bks' = Append(bks, Rec("incr", NB,
-                                        IF IncrShipsSnapshot /\ snap > 0 /\ snap \notin ChainSnaps(NB) THEN {snap} ELSE {},
-                                        Maxi(lo, bks[NB].n)))
-              /\ Note(Mark("bincr")) /\ UNCHANGED <<kv, log, snap, lo, clock>>
+BackupIncr == /\ NB < MaxBackups /\ NB > 0
+              \* The parent is the latest backup (a chain) or one of its ancestors (differential scheme: several children of
+              \* one parent).  Not modelled: an incremental hung onto a branch or a full backup that is no longer the current
+              \* line (F -> {A, B}, then A -> C; or F1, F2, then F1 -> I): point-in-time restore walks from the newest full
+              \* backup <= t to its newest child <= t and so on, which is the newest backup <= t only on the current line.
+              /\ \E par \in Ancestors(NB) :
+                   /\ bks[par].live
+                   /\ Gen \/ Len(log) > bks[par].n
+                   /\ bks' = Append(bks, Rec("incr", par,
+                                             IF IncrShipsSnapshot /\ snap > 0 /\ snap \notin ChainSnaps(par) THEN {snap} ELSE {},
+                                             Maxi(lo, bks[par].n)))
+                   /\ Note(Op("bincr", par, 0, NoMeta, FALSE, <<>>))
+              /\ UNCHANGED <<kv, log, snap, lo, clock>>
 
 Prune(p) == /\ ~Gen /\ Keep(p) # LiveIds
             /\ bks' = [i \in DOMAIN bks |-> [bks[i] EXCEPT !.live = @ /\ i \in Keep(p)]]
